@@ -420,13 +420,14 @@ class ExecMixin:
             raise OutOfSubset('for/else')
         k, ls = self.loop_spec(s)
         # static unrolling of literal sequences: exact
-        if isinstance(s.iter, (ast.List, ast.Tuple)) and ls is None:
+        if isinstance(s.iter, (ast.List, ast.Tuple)) and (ls is None or ls.unroll):
             def rec(i, st0):
                 if i == len(s.iter.elts):
                     yield Outcome('normal', st0)
                     return
                 for v, st1 in self.ev(s.iter.elts[i], st0):
                     self.bind_target(s.target, v, st1)
+                    st1.env['it%s' % k] = mk_int(i)
                     for o in self.ex_block(s.body, st1):
                         if o.kind in ('normal', 'continue'):
                             yield from rec(i + 1, o.st)
@@ -451,6 +452,7 @@ class ExecMixin:
                             yield Outcome('normal', st0)
                             return
                         self.bind_target(s.target, el(z3.IntVal(i)), st0)
+                        st0.env['it%s' % k] = mk_int(i)
                         for o in self.ex_block(s.body, st0):
                             if o.kind in ('normal', 'continue'):
                                 yield from rec2(i + 1, o.st)
